@@ -3,6 +3,7 @@ C13 line-protocol driver.  One case = one admin handler + one request:
 
   req  <side> <addr> <origins> <eo> <acl> <pats> <idx> <method> <host> <path> <upg> <origin> <referer> <tls>
   load <side> <addr> …same fields…     the same case driven through caddy.Load of a JSON config
+  url  <hex>                           net/url.Parse on printable ASCII without `%` → `ok <scheme> <host>` | `err`
   cf   <args> <block>                  the Caddyfile `admin` global option: args = . | hex,hex…  block = ~ (none) |
                                        . (empty) | line;line… (line = hex,hex…) → `ok <disabled> <listen> <eo> <origins>` | `err`
 
@@ -31,6 +32,7 @@ Answer:  <final> <path> <cors> <hits>     final = refused:<why> | handled:<patte
 -/
 import CaddyModel.C13.Listen
 import CaddyModel.C13.Caddyfile
+import CaddyModel.C13.Url
 
 namespace CaddyModel.C13
 
@@ -67,9 +69,14 @@ def listenByteOK (b : UInt8) : Bool := 32 ≤ b && b ≤ 126 && b != 123 && b !=
 def parseUrlT (ok sc h : String) : Option Url := do
   pure ⟨← parseBool ok, ← Hex.decode sc, ← Hex.decode h⟩
 
+/-- a header / origin value with its `url.Parse` table; inside the domain of `Url.lean` the model
+    parses the bytes itself and the table is ignored (the harness still checks it against net/url) -/
 def parseHeaderUrl (s : String) : Option (Bytes × Url) :=
   match s.splitOn ":" with
-  | [raw, ok, sc, h] => do pure (← Hex.decode raw, ← parseUrlT ok sc h)
+  | [raw, ok, sc, h] => do
+    let raw ← Hex.decode raw
+    let t ← parseUrlT ok sc h
+    pure (raw, if urlInDomain raw then urlParse raw else t)
   | _ => none
 
 def parseOrigins (s : String) : Option (Option (List OriginEntry)) :=
@@ -224,7 +231,20 @@ def handleCf : List String → String
     | _, _ => "bad-op"
   | _ => "bad-op"
 
+/-- `url <hex>`: the model of net/url.Parse on its domain → `ok <scheme> <host>` | `err` -/
+def handleUrl : List String → String
+  | [raw] =>
+    match Hex.decode raw with
+    | some raw =>
+      if !urlInDomain raw then "bad-op"
+      else
+        let u := urlParse raw
+        if u.ok then s!"ok {Hex.encode u.scheme} {Hex.encode u.host}" else "err"
+    | none => "bad-op"
+  | _ => "bad-op"
+
 def handle : List String → String
+  | "url" :: rest => handleUrl rest
   | "req" :: rest => handleReq false rest
   | "load" :: rest => handleReq true rest
   | "cf" :: rest => handleCf rest
